@@ -3,7 +3,6 @@
 from __future__ import annotations
 
 import base64
-import binascii
 
 from liquid2.exceptions import LiquidValueError
 from liquid2.filter import string_filter
@@ -12,7 +11,7 @@ from liquid2.filter import string_filter
 @string_filter
 def base64_encode(val: str) -> str:
     """Return _val_ encoded in base64."""
-    return base64.b64encode(val.encode()).decode()
+    return base64.b64encode(val.encode(errors="surrogatepass")).decode()
 
 
 @string_filter
@@ -23,14 +22,15 @@ def base64_decode(val: str) -> str:
     """
     try:
         return base64.b64decode(val).decode()
-    except binascii.Error as err:
+    except ValueError as err:
+        # Not base64 (`binascii.Error`), not ASCII, or not UTF-8 once decoded.
         raise LiquidValueError("invalid base64-encoded string", token=None) from err
 
 
 @string_filter
 def base64_url_safe_encode(val: str) -> str:
     """Return _val_ encoded in URL-safe base64."""
-    return base64.urlsafe_b64encode(val.encode()).decode()
+    return base64.urlsafe_b64encode(val.encode(errors="surrogatepass")).decode()
 
 
 @string_filter
@@ -41,5 +41,6 @@ def base64_url_safe_decode(val: str) -> str:
     """
     try:
         return base64.urlsafe_b64decode(val).decode()
-    except binascii.Error as err:
+    except ValueError as err:
+        # Not base64 (`binascii.Error`), not ASCII, or not UTF-8 once decoded.
         raise LiquidValueError("invalid base64-encoded string", token=None) from err
